@@ -53,7 +53,7 @@ def ttlCore (ctx : Ctx) (cis : List CI) (k : Nat) (scale : Int) : Except Err Bod
   if !c.truthy then ret (.int (-2)) cis
   else match c.expireat with
     | none => ret (.int (-1)) cis
-    | some e => ret (.int (roundHalfEven ((e - ctx.time) * scale) TICKS)) cis
+    | some e => ret (.int (roundHalfUp ((e - ctx.time) * scale) TICKS)) cis
 
 def ttl : Body := fun ctx args cis =>
   match args with
